@@ -21,7 +21,7 @@ func init() {
 				"(hopsim) inside the route loops the simulated fee conversion (AddLastSwapStepWithOrders) is guarded by a comparison of tx.GasCoin with the current hop's coin and an IsBaseCoin() test of the hop's other coin — per-hop conditions, not ones computed before the loop; (routedup) the set of pool ids that rejects a repeated pool is created before the route loop and filled inside it (each hop is priced on the untouched pool, so a repeated pool voids the limit); (tags) the amounts printed in tx.return and tx.sell_amount have the same call-result origins as an amount actually credited to / debited from tx.Sender() in the same deliver block; " +
 				"(sellall) a sell-all handler debits the sender's whole balance of the sold coin: the debited amounts have the GetBalance(tx.Sender(), coin to sell) read as an origin and the amount handed to the trade is that balance minus the commission.",
 			Assumptions: stdAssumptions,
-			Rules:       []string{"C15.limit", "C15.checkswap", "C15.tags", "C15.sellall", "C15.hopsim", "C15.routedup", "C15.compool"},
+			Rules:       []string{"C15.limit", "C15.checkswap", "C15.tags", "C15.sellall", "C15.hopsim", "C15.routedup", "C15.compool", "C15.lastiter"},
 		},
 		Run: runC15,
 	})
@@ -155,7 +155,7 @@ func blockRejects(b *ssa.BasicBlock) bool {
 }
 
 func runC15(c *core.Ctx) {
-	nLimit, nTags, nHop, nDup, nCom := 0, 0, 0, 0, 0
+	nLimit, nTags, nHop, nDup, nCom, nLast := 0, 0, 0, 0, 0, 0
 	for _, m := range LiveModels(c, "C15.limit") {
 		nCom += checkComPool(c, "C15.compool", m)
 		nHop += checkHopSimulation(c, "C15.hopsim", m)
@@ -175,6 +175,7 @@ func runC15(c *core.Ctx) {
 			continue
 		}
 		nLimit++
+		nLast += checkLastIterationLimit(c, "C15.lastiter", m, limitField)
 		checkLimitFlow(c, m, limitField)
 		nTags += checkTradeTags(c, m)
 		if strings.HasPrefix(m.H.ConstName, "TypeSellAll") {
@@ -184,6 +185,7 @@ func runC15(c *core.Ctx) {
 	c.Floor("C15.limit", nLimit, 6, "live handlers with a slippage limit field")
 	c.Floor("C15.tags", nTags, 6, "result tags checked against balance changes")
 	c.Floor("C15.hopsim", nHop, 4, "simulated fee-conversion steps inside route loops")
+	c.Floor("C15.lastiter", nLast, 3, "route-loop hop checks")
 	c.Floor("C15.compool", nCom, 14, "simulated fee-conversion steps in live handlers")
 	c.Floor("C15.routedup", nDup, 3, "duplicate-pool membership tests in route loops")
 	checkCheckSwap(c)
@@ -799,4 +801,152 @@ func returnsResultOf(fn *ssa.Function, call *ssa.Call) bool {
 		}
 	}
 	return false
+}
+
+// checkLastIterationLimit — C15.lastiter. In a route the user's limit applies to the last hop:
+// the handlers walk the route with the bound of every hop set to "anything" and replace it by
+// data.MinimumValueToBuy / MaximumValueToSell under `i == lastIteration` before the hop is checked.
+// Decided for the CheckSwap call inside each route loop: on every path through one iteration of
+// the loop that reaches the call without having decided `i != lastIteration`, the bound handed to
+// CheckSwap is the user's limit. (If the arming is made the `else` of some other condition, the
+// paths through that condition reach the check of the last hop with no limit at all.)
+func checkLastIterationLimit(c *core.Ctx, rule string, m *RunModel, field string) int {
+	wantBuy := field == "MaximumValueToSell"
+	limits := map[ssa.Value]bool{}
+	for _, ld := range fieldLoads(m.Fn, field) {
+		limits[ld] = true
+	}
+	n := 0
+	for _, s := range core.Sites(m.Fn) {
+		if !strings.HasSuffix(s.Callee, ".CheckSwap") || len(s.Common.Args) != 6 || !core.InCycle(s.Block()) || m.InDeliver(s.Block()) {
+			continue
+		}
+		idx := 4
+		if wantBuy {
+			idx = 3
+		}
+		bound := s.Common.Args[idx]
+		// the loop
+		loop := map[*ssa.BasicBlock]bool{s.Block(): true}
+		for x := range core.ReachFrom(s.Block(), nil) {
+			if core.ReachFrom(x, nil)[s.Block()] {
+				loop[x] = true
+			}
+		}
+		var header *ssa.BasicBlock
+		for x := range loop {
+			for _, pr := range x.Preds {
+				if !loop[pr] {
+					header = x
+				}
+			}
+		}
+		if header == nil {
+			continue
+		}
+		inLoopVal := func(v ssa.Value) bool {
+			in, ok := v.(ssa.Instruction)
+			return ok && in.Block() != nil && loop[in.Block()]
+		}
+		// `index == last`: an equality of a loop-variant integer with a loop-invariant one
+		isLastTest := func(cond ssa.Value) bool {
+			bin, ok := cond.(*ssa.BinOp)
+			if !ok || (bin.Op != token.EQL && bin.Op != token.NEQ) {
+				return false
+			}
+			if !isNumeric(bin.X.Type()) {
+				return false
+			}
+			vx, vy := inLoopVal(core.Unwrap(bin.X)), inLoopVal(core.Unwrap(bin.Y))
+			if _, isK := core.Unwrap(bin.Y).(*ssa.Const); isK {
+				return false
+			}
+			if _, isK := core.Unwrap(bin.X).(*ssa.Const); isK {
+				return false
+			}
+			return vx != vy
+		}
+		n++
+		key := fmt.Sprintf("%s/route-check#%d", m.H.TypeName, n)
+		// paths of one iteration: header → call, inside the loop, acyclic
+		bad := ""
+		count := 0
+		var blocks []*ssa.BasicBlock
+		var edges []core.Edge
+		onPath := map[*ssa.BasicBlock]bool{}
+		var dfs func(b *ssa.BasicBlock)
+		dfs = func(b *ssa.BasicBlock) {
+			if bad != "" || count > 4096 {
+				return
+			}
+			blocks = append(blocks, b)
+			onPath[b] = true
+			defer func() { blocks = blocks[:len(blocks)-1]; onPath[b] = false }()
+			if b == s.Block() {
+				count++
+				decidedNotLast := false
+				for _, e := range edges {
+					if isLastTest(e.If.Cond) {
+						bin := e.If.Cond.(*ssa.BinOp)
+						if (bin.Op == token.EQL) != e.Taken {
+							decidedNotLast = true
+						}
+					}
+				}
+				if decidedNotLast {
+					return
+				}
+				p := core.CFGPath{Blocks: append([]*ssa.BasicBlock{}, blocks...), Edges: append([]core.Edge{}, edges...)}
+				v := p.Resolve(bound)
+				// a value carried round the loop is, in an iteration that can be the last, what the
+				// earlier (not last) iterations left: the value from before the loop
+				for k := 0; k < 4; k++ {
+					ph, ok := v.(*ssa.Phi)
+					if !ok || ph.Block() != header {
+						break
+					}
+					next := v
+					for i, pr := range header.Preds {
+						if !loop[pr] && i < len(ph.Edges) {
+							next = ph.Edges[i]
+						}
+					}
+					if next == v {
+						break
+					}
+					v = next
+				}
+				armed := limits[v]
+				for _, o := range core.Origins(v) {
+					if limits[o] {
+						armed = true
+					}
+				}
+				if !armed {
+					bad = describePath(c, edges)
+				}
+				return
+			}
+			iff := core.IfOf(b)
+			for i, sc := range b.Succs {
+				if !loop[sc] || onPath[sc] || sc == header {
+					continue
+				}
+				if !(sc == s.Block() || core.ReachFrom(sc, map[*ssa.BasicBlock]bool{header: true})[s.Block()]) {
+					continue
+				}
+				if iff != nil {
+					edges = append(edges, core.Edge{If: iff, Taken: i == 0})
+					dfs(sc)
+					edges = edges[:len(edges)-1]
+				} else {
+					dfs(sc)
+				}
+			}
+		}
+		dfs(header)
+		c.Check(bad == "" && count > 0, rule, key, s.Pos(), fmt.Sprintf("on each of %d paths through an iteration that can be the last one, the bound checked is data.%s", count, field),
+			fmt.Sprintf("a path through the route loop reaches the hop check without having excluded the last hop and without data.%s as its bound (decisions: %s): the last hop of such a route is checked against no limit, and deliver executes it at any price", field, bad))
+	}
+	return n
 }
